@@ -12,6 +12,7 @@ ENV = dict(os.environ, GOFLAGS="-mod=mod", GOPROXY="off", GOSUMDB="off", GOTOOLC
 GROUPS = {
     "accounts": dict(files=[("persist/sqlite/accounts.go", None), ("host/accounts/accounts.go", None), ("host/accounts/budget.go", None)], checks=["C04", "C11"]),
     "volumes": dict(files=[("persist/sqlite/volumes.go", None), ("persist/sqlite/sectors.go", None), ("host/storage/storage.go", r"^(writeSector|Write|StoreSector|ReadSector|Sync|RemoveSector|migrateSector|growVolume|shrinkVolume|ResizeVolume|RemoveVolume|AddVolume|PruneSectors|ProcessActions|AddTemporarySectors|SetReadOnly)$")], checks=["C02", "C08"]),
+    "expiry": dict(files=[("persist/sqlite/contracts.go", r"(?i)expire"), ("persist/sqlite/sectors.go", r"(?i)expire|prune|temp")], checks=["C08", "C02"]),
     "sectors": dict(files=[("host/contracts/contracts.go", None), ("persist/sqlite/contracts.go", r"(?i)sector|revise|renew|root|trim|swap|append")], checks=["C03", "C13"]),
     "revision": dict(files=[("rhp/contracts.go", None), ("rhp/v2/contracts.go", None), ("rhp/v3/contracts.go", None)], checks=["C07", "C12"]),
     "lock": dict(files=[("host/contracts/lock.go", None)], checks=["C15"]),
